@@ -195,6 +195,44 @@ CrashStates(S) ==
         DC(f) == DataChoices(S.ino[f])
     IN {AfterLoss(S, dc, fc) : dc \in Choices(PendingDirs(S), CS), fc \in Choices(DirtyFiles(S), DC)}
 
+-----------------------------------------------------------------------------
+\* What a read of one path can yield after a power loss, computed without
+\* building the product CrashStates(S).  Directories and files are chosen
+\* independently, so the outcomes for ONE path are: in every directory on the
+\* way, the entry after any prefix of the pending operations that touch that
+\* name (operations on one name survive as a prefix of their order -- the
+\* closure rule -- and every prefix is achievable); for the inode reached, any
+\* of its DataChoices.
+\*   PossibleReads(S, p) = {ReadC(X, p) : X \in CrashStates(S)}
+\* is checked by TLC as the invariant FactorOK of LocalFSDesign.
+
+Touching(ops, name) == SelectSeq(ops, LAMBDA o : name \in Names(o))
+EntryAfter(o, name, before) == IF o.b = name THEN o.i ELSE -1   \* link/rename to name: the inode; unlink/rename away: none
+RECURSIVE EntryVals(_, _, _, _)
+EntryVals(ops, name, k, cur) ==
+    IF k > Len(ops) THEN {cur}
+    ELSE {cur} \cup EntryVals(ops, name, k + 1, EntryAfter(ops[k], name, cur))
+EntryChoices(S, d, name) ==
+    EntryVals(Touching(S.pend[d], name), name, 1,
+              IF name \in DOMAIN S.ddir[d] THEN S.ddir[d][name] ELSE -1)
+
+RECURSIVE PossibleInos(_, _, _, _)
+PossibleInos(S, p, i, k) ==
+    IF k > Len(p) THEN {i}
+    ELSE IF i < 0 \/ S.ino[i].kind # "dir" THEN {-1}
+    ELSE UNION {PossibleInos(S, p, j, k + 1) : j \in EntryChoices(S, i, p[k])}
+
+PossibleReads(S, p) ==
+    UNION {IF i >= 0 /\ S.ino[i].kind = "file"
+           THEN (IF S.ino[i].data = S.ino[i].ddata THEN {S.ino[i].data} ELSE DataChoices(S.ino[i]))
+           ELSE {Absent} :
+           i \in PossibleInos(S, p, Root, 1)}
+
+\* the product is small enough to enumerate (used where whole crash states are wanted)
+RECURSIVE SumLen(_, _)
+SumLen(f, D) == IF D = {} THEN 0 ELSE LET d == CHOOSE x \in D : TRUE IN Len(f[d]) + SumLen(f, D \ {d})
+SmallLoss(S) == SumLen(S.pend, DOMAIN S.pend) <= 6 /\ Cardinality(DirtyFiles(S)) <= 3
+
 \* the reachable tree as a set of <<path, kind, content>>
 RECURSIVE TreeFrom(_, _, _)
 TreeFrom(S, i, p) ==
